@@ -9,13 +9,11 @@ Request kinds
   {"k": "spell", "v": [text, ...]}                 several spellings of one expression
 Reply: see `describe`.
 """
-import io
 import json
 import math
 import os
 import resource
 import sys
-import tokenize
 import warnings
 
 warnings.simplefilter("ignore")
@@ -36,69 +34,7 @@ from unyt._unit_lookup_table import inv_name_alternatives as INV  # noqa: E402
 
 assert os.path.abspath(unyt.__file__).startswith(os.path.abspath(REPO) + os.sep), unyt.__file__
 
-GLOBAL_CLASSES = {"Symbol", "Integer", "Float", "Rational"}
-PRIORITY = ["string", "global-class", "call", "bracket", "comma", "compare", "comment",
-            "continuation", "attr", "other-op", "arith", "untokenizable"]
-
-
-def vocab_category(s):
-    """None when every token of `s` belongs to the documented vocabulary of unit strings
-    (numbers, names, * / **, parentheses, sqrt(...), unary sign, white space, the % and ° signs);
-    otherwise the class of the first offending construct in PRIORITY order.  Uses Python's own
-    tokenizer, never the Lean model."""
-    t = s.replace("%", "percent").replace("°", "deg")
-    # a lone carriage return is a line break to the compiler (white space inside parentheses);
-    # the tokenize module glues it to the next operator, so normalise it for classification
-    t = t.replace("\r\n", "\n").replace("\r", "\n")
-    cats = set()
-    if "\\" in t:
-        cats.add("continuation")
-    try:
-        toks = [(tk.type, tk.string) for tk in tokenize.generate_tokens(io.StringIO(t.strip()).readline)]
-    except Exception:  # noqa: BLE001
-        cats.add("untokenizable")
-        toks = []
-    prev = None  # previous significant token
-    for i, (ty, val) in enumerate(toks):
-        if ty in (tokenize.NL, tokenize.NEWLINE, tokenize.INDENT, tokenize.DEDENT, tokenize.ENDMARKER):
-            continue
-        if ty == tokenize.COMMENT:
-            cats.add("comment")
-            continue
-        if ty == tokenize.NUMBER:
-            pass
-        elif ty == tokenize.NAME:
-            if val in GLOBAL_CLASSES:
-                cats.add("global-class")
-            else:
-                nxt = next(((t2, v2) for t2, v2 in toks[i + 1:] if t2 not in (tokenize.NL, tokenize.NEWLINE)), None)
-                if nxt and nxt[1] == "(" and val != "sqrt":
-                    cats.add("call")
-        elif ty == tokenize.OP:
-            if val in ("*", "**", "/", "(", ")"):
-                pass
-            elif val in ("+", "-"):
-                if prev is not None and (prev[0] in (tokenize.NUMBER, tokenize.NAME) or prev[1] == ")"):
-                    cats.add("arith")
-            elif val == ",":
-                cats.add("comma")
-            elif val in ("[", "]", "{", "}"):
-                cats.add("bracket")
-            elif val in ("==", "!=", "<", ">", "<=", ">=", "=", ":=", "!"):
-                cats.add("compare")
-            elif val == ".":
-                cats.add("attr")
-            else:
-                cats.add("other-op")
-        elif ty == tokenize.STRING or tokenize.tok_name.get(ty, "").startswith("FSTRING"):
-            cats.add("string")
-        else:
-            cats.add("untokenizable")
-        prev = (ty, val)
-    for c in PRIORITY:
-        if c in cats:
-            return c
-    return None
+from c20_vocab import vocab_category  # noqa: E402
 
 
 def frac(q):
@@ -130,13 +66,20 @@ def unit_kind(u):
         return "one"
     if e.has(sympy.nan) or e.has(sympy.zoo) or e.has(sympy.oo):
         return "non-finite"
+    if any(isinstance(p, sympy.Pow) and p.exp.is_Float for p in sympy.preorder_traversal(e)):
+        return "float-exponent"
     if any(isinstance(p, sympy.Pow) and not p.exp.is_Rational for p in sympy.preorder_traversal(e)):
-        return "non-rational-exponent"
+        return "irrational-exponent"
     if any(INV.get(a.name, a.name) != a.name for a in e.atoms(sympy.Symbol)):
         # a symbol the name table itself maps to a different symbol (µm → μm, uB → μB)
         return "non-canonical-symbol"
+    if any(isinstance(p, sympy.Pow) and isinstance(p.base, sympy.Symbol) and p.base.name in LUT and LUT[p.base.name][0] < 0
+           and not p.exp.is_Integer for p in sympy.preorder_traversal(e)):
+        return "negative-scale-root"
     if u.base_offset != 0 and not isinstance(e, sympy.Symbol):
         return "offset-compound"
+    if isinstance(e, sympy.Symbol) and e.name in LUT and float(LUT[e.name][2]) != float(u.base_offset):
+        return "offset-dropped-symbol"
     if isinstance(e, sympy.Symbol):
         return "symbol:" + e.name if e.name in LUT else "symbol:prefixed-or-custom"
     return "compound"
@@ -158,9 +101,9 @@ def range_ok(u):
     outside it the scale of a re-parsed unit differs by overflow/underflow of an intermediate
     product, which "up to rounding" does not cover"""
     try:
-        if not (u.base_value == 0 or 1e-290 < abs(u.base_value) < 1e290):
-            return False
         c, rest = u.expr.as_coeff_Mul()
+        if not (1e-290 < abs(u.base_value) < 1e290 or (u.base_value == 0 and c == 0)):
+            return False
         if c != 0 and not (1e-290 < abs(float(c)) < 1e290):
             return False
         for b, p in rest.as_powers_dict().items():
@@ -220,7 +163,7 @@ def escape_trigger(s):
                     cats.add("symbolic-exponent")
                 elif not x.is_Rational and x.is_real is not True:
                     cats.add("complex-exponent")
-                elif x.is_Rational and not x.is_Integer:
+                elif not x.is_Integer:
                     if b.is_Number and b.is_negative:
                         cats.add("negative-number-root")
                     elif isinstance(b, sympy.Symbol) and b.name in LUT and LUT[b.name][0] < 0:
